@@ -110,6 +110,13 @@ fn main() {
             runner::stress(&mut rep, args.num("seed", 1), args.num("rounds", 30));
             rep.finish(args.out().as_deref())
         },
+        "conn-trace" => {
+            let prop = args.get("prop").unwrap_or("C07").to_string();
+            let mut rep = Report::new(&prop);
+            let path = PathBuf::from(args.get("trace").unwrap_or("/verif/out/conn.trace.ndjson"));
+            conn::run_trace(&prop, args.num("seed", 1), args.num("scenarios", 100), args.num("B", 8192) as usize, &path, &mut rep);
+            rep.finish(args.out().as_deref())
+        },
         "sp-trace" => {
             let prop = args.get("prop").unwrap_or("C02").to_string();
             let mut rep = Report::new(&prop);
